@@ -40,8 +40,44 @@ fn sub(n: usize) {
     let _ = LIVE.try_with(|l| l.set(l.get() - n as isize));
 }
 
+/// A single request of this size (32 GiB) can never be proportionate to the few
+/// megabytes any case consumes or produces, and on this machine it would make
+/// the allocation fail - which aborts the process and escapes catch_unwind. So it
+/// is reported right here as a violation of the running case, and the process
+/// exits with status 1.
+pub const ABSURD: usize = 1 << 35;
+
+thread_local! {
+    /// (property id, family, index) of the case running on this thread
+    pub static CURRENT_CASE: Cell<(&'static str, &'static str, u64)> = const { Cell::new(("", "", 0)) };
+}
+pub static RUN_SEED: std::sync::atomic::AtomicU64 = std::sync::atomic::AtomicU64::new(0);
+pub static RUN_THOROUGH: std::sync::atomic::AtomicBool = std::sync::atomic::AtomicBool::new(false);
+
+#[cold]
+fn absurd(size: usize) -> ! {
+    let (prop, fam, idx) = CURRENT_CASE.try_with(|c| c.get()).unwrap_or(("", "", 0));
+    let seed = RUN_SEED.load(std::sync::atomic::Ordering::Relaxed);
+    let tier = if RUN_THOROUGH.load(std::sync::atomic::Ordering::Relaxed) { "thorough" } else { "quick" };
+    let prop = if prop.is_empty() { "C07" } else { prop };
+    let _ = std::fs::create_dir_all("replays");
+    let path = format!("replays/{}-absurd-allocation-{}-{}.json", prop, fam, idx);
+    let body = format!(
+        "{{\n \"property\": \"{}\",\n \"family\": \"{}\",\n \"index\": {},\n \"seed\": {},\n \"tier\": \"{}\",\n \"profile\": \"{}\",\n \"signature\": \"{}/absurd-allocation\",\n \"detail\": \"a single allocation of {} bytes was requested while this case was running\"\n}}\n",
+        prop, fam, idx, seed, tier, crate::PROFILE, prop, size
+    );
+    let _ = std::fs::write(&path, body);
+    println!("VIOLATION property={} replay={}", prop, path);
+    println!("  signature: {}/absurd-allocation", prop);
+    println!("  detail: a single allocation of {} bytes was requested in case {}#{} (seed {}); the allocation would fail and abort the process, so the run stops here", size, fam, idx, seed);
+    std::process::exit(1)
+}
+
 unsafe impl GlobalAlloc for Counting {
     unsafe fn alloc(&self, layout: Layout) -> *mut u8 {
+        if layout.size() >= ABSURD {
+            absurd(layout.size());
+        }
         let p = System.alloc(layout);
         if !p.is_null() {
             add(layout.size());
@@ -49,6 +85,9 @@ unsafe impl GlobalAlloc for Counting {
         p
     }
     unsafe fn alloc_zeroed(&self, layout: Layout) -> *mut u8 {
+        if layout.size() >= ABSURD {
+            absurd(layout.size());
+        }
         let p = System.alloc_zeroed(layout);
         if !p.is_null() {
             add(layout.size());
@@ -60,6 +99,9 @@ unsafe impl GlobalAlloc for Counting {
         sub(layout.size());
     }
     unsafe fn realloc(&self, ptr: *mut u8, layout: Layout, new_size: usize) -> *mut u8 {
+        if new_size >= ABSURD {
+            absurd(new_size);
+        }
         let p = System.realloc(ptr, layout, new_size);
         if !p.is_null() {
             // while realloc runs both blocks may exist
